@@ -310,7 +310,17 @@ def main():
             return 2
     ctx = Ctx(pid, tier, seed)
     try:
-        CHECKS[pid](ctx, replay)
+        try:
+            CHECKS[pid](ctx, replay)
+        except Infra:
+            raise
+        except Exception as ex:
+            # a failure of the machinery itself is never a verdict (exit 2) -- unless a violation of the real code had already been
+            # observed (e.g. the library crashed a driver, and a later step then misses that driver's output): it is reported
+            import traceback
+            traceback.print_exc()
+            if not ctx.violations:
+                raise Infra("check procedure failed: %r" % ex)
         rc = finish(ctx)
         if want_sig is not None:
             again = any(sig == want_sig for sig, _, _ in ctx.violations)
